@@ -448,12 +448,12 @@ Lemma scp_wire_isolation : forall f q q',
 Proof.
   intros f [[r t dp dc sp sc dx dy sx sy d] c s a1 a2 a3] [[r' t' dp' dc' sp' sc' dx' dy' sx' sy' d'] c' s' a1' a2' a3']
          Hw Hw' Hs.
-  unfold scp_in_width, sdp_in_width, byte in Hw, Hw'. unfold same_except in Hs.
+  unfold scp_in_width, sdp_in_width, byte in Hw, Hw'. unfold same_except, sdp_same_except in Hs.
   cbn [sdp_part cmd_rc seq arg1 arg2 arg3
        reply_expected tag dest_port dest_cpu src_port src_cpu dest_x dest_y src_x src_y data] in *.
   destruct Hw as ((Ht & Hdp & Hdc & Hsp & Hsc & Hdx & Hdy & Hsx & Hsy) & Hc & Hsq & H1 & H2 & H3).
   destruct Hw' as ((Ht' & Hdp' & Hdc' & Hsp' & Hsc' & Hdx' & Hdy' & Hsx' & Hsy') & Hc' & Hsq' & H1' & H2' & H3').
-  destruct Hs as (E0 & E1 & E2 & E3 & E4 & E5 & E6 & E7 & E8 & E9 & E10 & E11 & E12 & E13 & E14 & E15).
+  destruct Hs as ((E0 & E1 & E2 & E3 & E4 & E5 & E6 & E7 & E8 & E9 & E15) & E10 & E11 & E12 & E13 & E14).
   unfold differ_only_in, scp_wire, sdp_wire_header, le16.
   cbn [sdp_part cmd_rc seq arg1 arg2 arg3
        reply_expected tag dest_port dest_cpu src_port src_cpu dest_x dest_y src_x src_y data].
@@ -479,3 +479,120 @@ Proof.
     split; [intros X; exfalso; apply X; reflexivity|].
     destruct a1', a2', a3'; positions.
 Qed.
+
+Lemma sdp_wire_isolation : forall f p p',
+  sdp_in_width p -> sdp_in_width p' -> sdp_same_except f p p' -> sdp_differ_only_in f (sdp_wire p) (sdp_wire p').
+Proof.
+  intros f [r t dp dc sp sc dx dy sx sy d] [r' t' dp' dc' sp' sc' dx' dy' sx' sy' d'] Hw Hw' Hs.
+  unfold sdp_in_width, byte in Hw, Hw'. unfold sdp_same_except in Hs.
+  cbn [reply_expected tag dest_port dest_cpu src_port src_cpu dest_x dest_y src_x src_y data] in *.
+  destruct Hw as (Ht & Hdp & Hdc & Hsp & Hsc & Hdx & Hdy & Hsx & Hsy).
+  destruct Hw' as (Ht' & Hdp' & Hdc' & Hsp' & Hsc' & Hdx' & Hdy' & Hsx' & Hsy').
+  destruct Hs as (E0 & E1 & E2 & E3 & E4 & E5 & E6 & E7 & E8 & E9 & E15).
+  unfold sdp_differ_only_in, sdp_wire, sdp_wire_header.
+  cbn [reply_expected tag dest_port dest_cpu src_port src_cpu dest_x dest_y src_x src_y data].
+  destruct f; use_same; subst.
+  1-15: (split; [intros _; cbn [app length]; reflexivity | positions]).
+  split; [intros X; exfalso; apply X; reflexivity | positions].
+Qed.
+
+(* ================================================================== statements for Props/C15.v *)
+Lemma scp_field_isolation : forall f q q',
+  scp_in_width q -> scp_in_width q' -> same_except f q q' ->
+  exists bs bs', scp_bytes q = Ok bs /\ scp_bytes q' = Ok bs' /\ differ_only_in f q bs bs'.
+Proof.
+  intros f q q' Hw Hw' Hs. exists (scp_wire q), (scp_wire q').
+  split; [apply scp_layout; exact Hw|]. split; [apply scp_layout; exact Hw'|].
+  apply scp_wire_isolation; assumption.
+Qed.
+
+Lemma sdp_field_isolation : forall f p p',
+  sdp_in_width p -> sdp_in_width p' -> sdp_same_except f p p' ->
+  exists bs bs', sdp_bytes p = Ok bs /\ sdp_bytes p' = Ok bs' /\ sdp_differ_only_in f bs bs'.
+Proof.
+  intros f p p' Hw Hw' Hs. exists (sdp_wire p), (sdp_wire p').
+  split; [apply sdp_layout; exact Hw|]. split; [apply sdp_layout; exact Hw'|].
+  apply sdp_wire_isolation; assumption.
+Qed.
+
+(* the encodings are well-formed byte strings when the payload is *)
+Lemma sdp_wire_header_bytes : forall p, sdp_in_width p -> bytes (sdp_wire_header p).
+Proof.
+  intros p (Ht & Hdp & Hdc & Hsp & Hsc & Hdx & Hdy & Hsx & Hsy). unfold sdp_wire_header, bytes.
+  assert (Hf : byte (flag_byte (reply_expected p))) by (unfold byte, flag_byte; destruct (reply_expected p); lia).
+  unfold byte in *. repeat (constructor; [first [assumption | lia]|]). constructor.
+Qed.
+
+Lemma le16_bytes : forall v, 0 <= v < 65536 -> bytes (le16 v).
+Proof. intros v Hv. unfold le16, bytes, byte. repeat (constructor; [lia|]). constructor. Qed.
+
+Lemma opt_le32_bytes : forall a, opt_word32 a -> bytes (opt_le32 a).
+Proof.
+  intros [v|] Ha; cbn [opt_le32]; [|constructor]. cbn [opt_word32] in Ha. unfold word32 in Ha.
+  unfold le32, bytes, byte. repeat (constructor; [lia|]). constructor.
+Qed.
+
+Lemma sdp_wire_bytes : forall p, sdp_in_width p -> bytes (data p) -> bytes (sdp_wire p).
+Proof. intros p Hw Hd. unfold sdp_wire. apply Forall_app. split; [apply sdp_wire_header_bytes; exact Hw | exact Hd]. Qed.
+
+Lemma scp_wire_bytes : forall q, scp_in_width q -> bytes (data (sdp_part q)) -> bytes (scp_wire q).
+Proof.
+  intros q (Hp & Hc & Hs & H1 & H2 & H3) Hd. unfold scp_wire.
+  apply Forall_app; split; [apply sdp_wire_header_bytes; exact Hp|].
+  apply Forall_app; split; [apply le16_bytes; exact Hc|].
+  apply Forall_app; split; [apply le16_bytes; exact Hs|].
+  apply Forall_app; split; [apply opt_le32_bytes; exact H1|].
+  apply Forall_app; split; [apply opt_le32_bytes; exact H2|].
+  apply Forall_app; split; [apply opt_le32_bytes; exact H3 | exact Hd].
+Qed.
+
+(* the round trip cannot be asked of a packet whose present arguments are not a prefix *)
+Definition nonprefix_witness : scp :=
+  {| sdp_part := {| reply_expected := false; tag := 255; dest_port := 1; dest_cpu := 2; src_port := 7;
+                    src_cpu := 31; dest_x := 3; dest_y := 4; src_x := 0; src_y := 0; data := [] |};
+     cmd_rc := 1; seq := 0; arg1 := None; arg2 := Some 5; arg3 := None |}.
+
+Lemma roundtrip_needs_prefix :
+  scp_in_width nonprefix_witness /\ ~ args_prefix nonprefix_witness
+  /\ scp_bytes nonprefix_witness = Ok [0; 0; 7; 255; 34; 255; 4; 3; 0; 0; 1; 0; 0; 0; 5; 0; 0; 0]
+  /\ forall bs n, scp_of_bytes bs n <> Ok nonprefix_witness.
+Proof.
+  split; [|split; [|split]].
+  - unfold scp_in_width, sdp_in_width, byte, opt_word32, word32, nonprefix_witness. cbn. lia.
+  - intros [P _]. specialize (P eq_refl). discriminate P.
+  - vm_compute. reflexivity.
+  - intros bs n H. apply decoded_args_prefix in H. destruct H as [P _]. specialize (P eq_refl). discriminate P.
+Qed.
+
+(* instances: hypotheses are satisfiable, and a payload that ends inside the second argument word *)
+Definition ex_scp : scp :=
+  {| sdp_part := {| reply_expected := true; tag := 255; dest_port := 7; dest_cpu := 17; src_port := 7;
+                    src_cpu := 31; dest_x := 255; dest_y := 254; src_x := 1; src_y := 2; data := [9; 8; 7] |};
+     cmd_rc := 65535; seq := 258; arg1 := Some 4294967295; arg2 := Some 66051; arg3 := None |}.
+
+Lemma ex_scp_instance :
+  scp_in_width ex_scp /\ args_prefix ex_scp /\ n_present ex_scp = 2
+  /\ scp_bytes ex_scp = Ok [0; 0; 135; 255; 241; 255; 254; 255; 2; 1; 255; 255; 2; 1;
+                            255; 255; 255; 255; 3; 2; 1; 0; 9; 8; 7]
+  /\ bind (scp_bytes ex_scp) (fun bs => scp_of_bytes bs 2) = Ok ex_scp.
+Proof.
+  split; [|split; [|split; [|split]]].
+  - unfold scp_in_width, sdp_in_width, byte, opt_word32, word32, ex_scp. cbn. lia.
+  - split; intros X; discriminate X.
+  - reflexivity.
+  - vm_compute. reflexivity.
+  - vm_compute. reflexivity.
+Qed.
+
+(* 14 header bytes and 6 more: with n_args = 3 one argument is taken, two bytes remain as payload *)
+Lemma ex_decode_inside_word :
+  exists q, scp_of_bytes [0; 0; 7; 1; 2; 3; 4; 5; 6; 7; 8; 9; 10; 11; 12; 13; 14; 15; 16; 17] 3 = Ok q
+            /\ arg1 q = Some 252579084 /\ arg2 q = None /\ arg3 q = None /\ data (sdp_part q) = [16; 17].
+Proof. eexists. split; [vm_compute; reflexivity|]. cbn. repeat split; reflexivity. Qed.
+
+Lemma ex_same_except :
+  same_except FDestCpu ex_scp
+    {| sdp_part := {| reply_expected := true; tag := 255; dest_port := 7; dest_cpu := 0; src_port := 7;
+                      src_cpu := 31; dest_x := 255; dest_y := 254; src_x := 1; src_y := 2; data := [9; 8; 7] |};
+       cmd_rc := 65535; seq := 258; arg1 := Some 4294967295; arg2 := Some 66051; arg3 := None |}.
+Proof. unfold same_except, sdp_same_except, ex_scp. cbn. repeat split; auto. Qed.
